@@ -280,9 +280,15 @@ func (l *Lexer) readString(delimiter byte) string {
 					hex2 := l.PeekChar()
 					if isHexDigit(hex2) {
 						l.ReadChar() // consume second hex digit
-						// Convert hex digits to byte value
+						// Convert hex digits to the character they denote
 						value := hexDigitValue(hex1)*16 + hexDigitValue(hex2)
-						result.WriteByte(byte(value))
+						if mustStayEscaped(value) {
+							result.WriteString("\\x")
+							result.WriteByte(hex1)
+							result.WriteByte(hex2)
+						} else {
+							result.Write(encodeUTF8(value))
+						}
 						continue
 					}
 				}
@@ -349,6 +355,12 @@ func (l *Lexer) readString(delimiter byte) string {
 					}
 
 					// Convert to UTF-8 and add to result
+					if mustStayEscaped(value) {
+						result.WriteString("\\u{")
+						result.Write(hexDigits)
+						result.WriteByte('}')
+						continue
+					}
 					utf8Bytes := encodeUTF8(value)
 					for _, b := range utf8Bytes {
 						result.WriteByte(b)
@@ -370,6 +382,11 @@ func (l *Lexer) readString(delimiter byte) string {
 									l.ReadChar() // consume fourth hex digit
 									// Convert 4 hex digits to Unicode value
 									value := hexDigitValue(hex1)*4096 + hexDigitValue(hex2)*256 + hexDigitValue(hex3)*16 + hexDigitValue(hex4)
+									if mustStayEscaped(value) {
+										result.WriteString("\\u")
+										result.Write([]byte{hex1, hex2, hex3, hex4})
+										continue
+									}
 									// Convert to UTF-8 and write the bytes
 									utf8Bytes := encodeUTF8(value)
 									for _, b := range utf8Bytes {
